@@ -84,10 +84,13 @@ def history(I, kind="complex", length=3, twin=False):
         files = [os.path.join(d, "f0.pt"), os.path.join(d, "f1.pt")]
         stored = {}
         # (keys that merely CONTAIN a reserved name are ordinary metadata)
-        meta = {"note": "x", "nested": {"a": [1, 2]}, "t": torch.tensor([1.5, -2.0]), "rbm_am_lr": 0.25, "unitary_dict_source": "lab"}
+        meta = {"note": "x", "nested": {"a": [1, 2]}, "t": torch.tensor([1.5, -2.0]), "rbm_am_lr": 0.25, "unitary_dict_source": "lab",
+                "nothing": None, "empty_list": [], "empty_dict": {}, "blank": "", "zero": 0}  # "empty" values are metadata too
 
         def meta_ok():
-            return (sorted(meta) == ["nested", "note", "rbm_am_lr", "t", "unitary_dict_source"] and meta["note"] == "x" and meta["nested"] == {"a": [1, 2]}
+            return (sorted(meta) == sorted(["nested", "note", "rbm_am_lr", "t", "unitary_dict_source", "nothing", "empty_list", "empty_dict", "blank", "zero"])
+                    and meta["nothing"] is None and meta["empty_list"] == [] and meta["empty_dict"] == {} and meta["blank"] == "" and meta["zero"] == 0
+                    and meta["note"] == "x" and meta["nested"] == {"a": [1, 2]}
                     and torch.equal(meta["t"], torch.tensor([1.5, -2.0])) and meta["rbm_am_lr"] == 0.25 and meta["unitary_dict_source"] == "lab")
 
         expected_A = _snap(A)
@@ -113,7 +116,10 @@ def history(I, kind="complex", length=3, twin=False):
                     return False, "%s: save modified the caller's metadata: keys %s" % (tag, sorted(meta))
                 blob = torch.load(path)
                 if blob.get("note") != "x" or blob.get("nested") != {"a": [1, 2]} or not torch.equal(blob.get("t"), torch.tensor([1.5, -2.0])) \
-                        or blob.get("rbm_am_lr") != 0.25 or blob.get("unitary_dict_source") != "lab":
+                        or blob.get("rbm_am_lr") != 0.25 or blob.get("unitary_dict_source") != "lab" \
+                        or any(k_ not in blob for k_ in ("nothing", "empty_list", "empty_dict", "blank", "zero")) \
+                        or blob["nothing"] is not None or blob["empty_list"] != [] or blob["empty_dict"] != {} or blob["blank"] != "" or blob["zero"] != 0 \
+                        or set(blob) - set(A.networks) - {"unitary_dict"} != set(meta):
                     return False, "%s: stored metadata wrong" % tag
                 # the file written by THIS save holds the parameters the model has NOW (whatever happened since an earlier save)
                 for net in A.networks:
